@@ -12,6 +12,7 @@
   the answer after it is the code-shaped model's (theorems in Props/C01 say they coincide).
 -/
 import EasyMl.Model.Tensor
+import EasyMl.Model.Transform
 import EasyMl.Spec.Tensor
 import Driver.Parse
 
@@ -22,6 +23,18 @@ structure State where
   tensor : Option (Tensor String Nat) := none
   access : Option (Access String Nat) := none
   names : List String := []
+  /-- the tensor was built by `from_fn` with the producer `code` -/
+  producer : Bool := false
+
+/-- the producer handed to `Tensor::from_fn` (the harness uses the same) -/
+def code (idx : List Nat) : Nat := idx.foldl (fun acc i => acc * 7 + i + 1) 1000
+
+def showNames (l : List String) : String := if l.isEmpty then "-" else ",".intercalate l
+
+def showBool (b : Bool) : String := if b then "true" else "false"
+
+def specValidShape (shape : List (String × Nat)) : Bool :=
+  decide ((shape.map (·.1)).Nodup ∧ ∀ d ∈ shape, 1 ≤ d.2)
 
 def init : State := {}
 
@@ -30,15 +43,55 @@ def both (spec model : String) : String :=
 
 def step (s : State) (toks : List String) : State × String :=
   match toks with
+  | "@" :: "from_fn" :: shapeS :: _ =>
+    match parseShape shapeS with
+    | some shape =>
+      let t := Tensor.fromFn shape code
+      ({ tensor := t, access := none, producer := true },
+        both (if specValidShape shape then "ok" else "panic(explicit)")
+             (if t.isSome then "ok" else "panic(explicit)"))
+    | none => (s, "bad-op")
+  | "@" :: "from_scalar" :: vS :: _ =>
+    match vS.toNat? with
+    | some v =>
+      let t : Tensor String Nat := Tensor.fromScalar v
+      ({ tensor := some t, access := none },
+        both (if Tensor.tryFrom ([] : List (String × Nat)) [v] |>.isSome then "ok" else "panic(explicit)") "ok")
+    | none => (s, "bad-op")
   | ["@", kind, shapeS, nS] =>
     match parseShape shapeS, nS.toNat? with
     | some shape, some n =>
       let t := Tensor.tryFrom shape (List.range n)
-      let errS := if kind = "from" then "panic(explicit)" else "err"
+      -- `try_from` hands the shape back in an InvalidShapeError, whose `is_valid` says whether
+      -- only the element count was wrong
+      let errS := fun (v : Bool) =>
+        if kind = "from" then "panic(explicit)" else s!"err valid={showBool v}"
       ({ tensor := t, access := none },
-        both (if decide (Spec.Accepts shape n) then "ok" else errS)
-             (if t.isSome then "ok" else errS))
+        both (if decide (Spec.Accepts shape n) then "ok" else errS (specValidShape shape))
+             (if t.isSome then "ok" else errS (shapeIsValid shape)))
     | _, _ => (s, "bad-op")
+  | "dimerr" :: providedS :: validS :: _ =>
+    -- `InvalidDimensionsError<D, P>`: a plain record of two name lists
+    let provided := parseNames providedS
+    let valid := parseNames validS
+    (s, both s!"provided={showNames provided} valid={showNames valid} dup={showBool (decide (¬ provided.Nodup))}"
+             s!"provided={showNames provided} valid={showNames valid} dup={showBool (hasDuplicates provided)}")
+  | "dim" :: name :: _ =>
+    match s.tensor with
+    | none => (s, "no-tensor")
+    | some t =>
+      let names := t.shape.map (·.1)
+      let specLen := if name ∈ names
+        then some (((Spec.shapeFor t.shape [name]).map (·.2)).getD 0 0) else none
+      let specPos := if name ∈ names then some (names.idxOf name) else none
+      (s, both s!"pos={showOpt specPos} contains={showBool (decide (name ∈ names))} len={showOpt specLen} last={showOpt (specLen.map (· - 1))}"
+               s!"pos={showOpt (dimPositionOf t.shape name)} contains={showBool (dimContains t.shape name)} len={showOpt (dimLengthOf t.shape name)} last={showOpt (dimLastIndexOf t.shape name)}")
+  | "names" :: _ =>
+    match s.tensor with
+    | none => (s, "no-tensor")
+    | some t =>
+      (s, both s!"names={showNames (t.shape.map (·.1))} elements={t.data.length}"
+               s!"names={showNames (dimNamesOf t.shape)} elements={elements t.shape}")
   | "index_by" :: namesS :: _ =>
     match s.tensor with
     | none => (s, "no-tensor")
@@ -53,8 +106,14 @@ def step (s : State) (toks : List String) : State × String :=
   | "get" :: idxS :: _ =>
     match s.access, parseNatList idxS with
     | some a, some idx =>
-      (s, both (showOpt (Spec.lookupByName a.source.shape a.source.data s.names idx))
-               (showOpt (a.get idx)))
+      -- for a tensor built by `from_fn` the spec's answer is the producer applied to the
+      -- addressed coordinates (not a look-up in the stored data)
+      let specAns :=
+        if s.producer then
+          (Spec.lookupOffset a.source.shape s.names idx).map fun _ =>
+            code (Spec.coords a.source.shape s.names idx)
+        else Spec.lookupByName a.source.shape a.source.data s.names idx
+      (s, both (showOpt specAns) (showOpt (a.get idx)))
     | _, _ => (s, "no-access")
   | "set" :: idxS :: _ =>
     match s.access, parseNatList idxS with
